@@ -160,7 +160,7 @@ func c18(c *Ctx) {
 						}
 					}
 				}
-				if fromRepo(bo.X) && fromRepo(bo.Y) && !fromReg(bo.X) && firstSegment(bo.X) && firstSegment(bo.Y) {
+				if fromRepo(bo.X) && fromRepo(bo.Y) && !fromReg(bo.X) && firstSegment(bo.X, bo.Block()) && firstSegment(bo.Y, bo.Block()) {
 					if bo.Referrers() != nil {
 						for _, r := range *bo.Referrers() {
 							if _, ok := r.(*ssa.Return); ok && bo.Op == token.NEQ {
@@ -834,11 +834,15 @@ func boolStr(b bool, s string) string {
 // firstSegment: v is the first "/"-separated segment of a string, in one of
 // the enumerated idioms: strings.Split(x,"/")[0], strings.SplitN(x,"/",n)[0],
 // first result of strings.Cut(x,"/").
-func firstSegment(v ssa.Value) bool {
+func firstSegment(v ssa.Value, at *ssa.BasicBlock) bool {
 	// handed on through the result temporary of an extracted helper: the one non-zero value it can be
-	if _, isPhi := v.(*ssa.Phi); isPhi {
-		if w := sole(v); w != v {
-			return firstSegment(w)
+	if phi, isPhi := v.(*ssa.Phi); isPhi {
+		// only the operands that can feasibly reach the comparison count: the "" of the helper's error
+		// return is cut off by the error test, a "" returned for "no slash" is not
+		if at != nil {
+			if w := cfgx.ResolveAt(phi, at); w != ssa.Value(phi) {
+				return firstSegment(w, at)
+			}
 		}
 		return false
 	}
